@@ -373,11 +373,15 @@ func (w *World) removeEntities(filter Filter) int {
 		}
 
 		var j uint32
+		if listen {
+			// Notify for all entities of the archetype before removing any of them.
+			// Otherwise, listeners would see entities that are already dead, but still in the archetype.
+			for j = 0; j < ln; j++ {
+				w.listener.Notify(w, EntityEvent{Entity: arch.GetEntity(j), Removed: arch.Mask, RemovedIDs: oldIds, OldRelation: oldRel, OldTarget: arch.RelationTarget, EventTypes: bits})
+			}
+		}
 		for j = 0; j < ln; j++ {
 			entity := arch.GetEntity(j)
-			if listen {
-				w.listener.Notify(w, EntityEvent{Entity: entity, Removed: arch.Mask, RemovedIDs: oldIds, OldRelation: oldRel, OldTarget: arch.RelationTarget, EventTypes: bits})
-			}
 			index := &w.entities[entity.id]
 			index.arch = nil
 
